@@ -20,10 +20,19 @@ RowBl(bpms, m, r, n) == BlAt(bpms, 4 * m + (4 * r) \div n, (4 * r) % n, n)
 
 (* the non-"0" cells of a chart are given sparsely by the lexer, in file order:                  *)
 (*   ch.cells : seq of [m, r, c (all 1-based), n |-> rows of that measure, s |-> symbol]          *)
+(*   f.stops  : seq of [p, len] (empty when the file has no #STOPS)                                   *)
 (*   ch.rows  : seq of row counts per measure;  ch.widths / ch.symbols : distinct row widths / symbols used *)
 Cells(ch) == DOMAIN ch.cells
 Sym(ch, x) == ch.cells[x].s
+(* EXTENSION (#STOPS, outside the listed properties): a stop [p |-> beat x4800, len |-> ticks] pauses the chart at   *)
+(* its beat; everything on a later beat is delayed by its length, objects on the stop's own beat are not.           *)
+StopShift(f, m, r, n) ==
+    LET S == { k \in DOMAIN f.stops : f.stops[k].p * n < (4 * m * n + 4 * r) * 4800 }
+        RECURSIVE Sum(_)
+        Sum(T) == IF T = {} THEN 0 ELSE LET k == CHOOSE k \in T : TRUE IN f.stops[k].len + Sum(T \ {k})
+    IN  Sum(S)
 CellTicks(f, ch, x) == RowTicks(f.bpms, f.off, ch.cells[x].m - 1, ch.cells[x].r - 1, ch.cells[x].n)
+                       + StopShift(f, ch.cells[x].m - 1, ch.cells[x].r - 1, ch.cells[x].n)
 CellBl(f, ch, x) == RowBl(f.bpms, ch.cells[x].m - 1, ch.cells[x].r - 1, ch.cells[x].n)
 
 Simple(f, ch, s) == { [t |-> CellTicks(f, ch, x), c |-> ch.cells[x].c - 1, bl |-> CellBl(f, ch, x), id |-> x] : x \in { x \in Cells(ch) : Sym(ch, x) = s } }
